@@ -335,7 +335,7 @@ def parse_stmt(l):
     if m:
         return ("setdiscr", parse_place(m.group(1)), int(m.group(2)))
     # call with destination
-    mt = re.match(r"^(.*) -> (\[return: (bb\d+), unwind[^\]]*\]|unwind .*)$", l)
+    mt = re.match(r"^(.*) -> (\[return: (bb\d+), unwind[^\]]*\]|unwind .*|bb\d+)$", l)
     if mt and mt.group(1).endswith(")") and " = " in mt.group(1):
         head = mt.group(1)
         k = _match_open(head)
